@@ -165,7 +165,7 @@ def check(pl):
             if s.ideal_unitary is None:
                 return f"stretched {name} has no unitary"
             got = s.ideal_unitary(*cargs, f)
-            if not numpy.allclose(got, want):
+            if numpy.shape(got) != numpy.shape(want) or not numpy.allclose(got, want):
                 return f"stretched {name} (factor {f}) does not have its parent's ideal action"
         return None
 
